@@ -2,7 +2,7 @@ import Std.Data.HashMap
 import TsVerif.Common.IO
 import TsVerif.C12.Judge
 /-!
-Driver for C12.  Input: `thr <lang> <size> <lexed_ppm> <bytes_ppm> <fresh_ppm>` lines, then cases
+Driver for C12.  Input: `thr <lang> <size> <lexed_ppm> <bytes_ppm> <fresh_ppm> <freshvis_ppm>` lines, then cases
 (measurements of the real runtime + dumps before the edit / after `ts_tree_edit` / after the
 re-parse), then `finish`.  Output per case
 
@@ -34,7 +34,8 @@ def runCase (s : St) : String × Option Measured :=
     let g := fun k => (s.meas.get? k).getD 0
     let sh := shareStats ed.root nw.root
     let m : Measured := { lexedPpm := ppm (g "lexed") (g "tokens"), bytesPpm := ppm (g "bytes_served") (g "doc_bytes")
-                          freshPpm := ppm (sh.heap - sh.shared) sh.heap }
+                          freshPpm := ppm (sh.heap - sh.shared) sh.heap
+                          freshVisPpm := ppm (sh.visHeap - sh.visShared) sh.visHeap }
     let (marks, mk) := match parseDump s.before.toList with
       | some bf =>
         let r := marksOk s.start s.oldEnd bf.root ed.root
@@ -46,7 +47,7 @@ def runCase (s : St) : String × Option Measured :=
         match judgeCase thr m (g "incr_error" == 1) (g "scratch_error" == 1) (g "same_sexp" == 1) with
         | some msg => "FAIL " ++ msg
         | none => if marks.startsWith "FAIL" then "FAIL marking: " ++ (marks.drop 5).toString else "ok"
-    (s!"{s.id} judge={j} marks={marks} lexed_ppm={m.lexedPpm} bytes_ppm={m.bytesPpm} fresh_ppm={m.freshPpm} tokens={g "tokens"} lexed={g "lexed"} nodes={sh.nodes} heap={sh.heap} shared={sh.shared} marked={mk.marked} depth={mk.maxDepth}", some m)
+    (s!"{s.id} judge={j} marks={marks} lexed_ppm={m.lexedPpm} bytes_ppm={m.bytesPpm} fresh_ppm={m.freshPpm} freshvis_ppm={m.freshVisPpm} tokens={g "tokens"} lexed={g "lexed"} nodes={sh.nodes} heap={sh.heap} shared={sh.shared} vis_heap={sh.visHeap} vis_shared={sh.visShared} marked={mk.marked} depth={mk.maxDepth}", some m)
   | _, _ => (s!"{s.id} judge=BADINPUT unreadable dump", none)
 
 def growthLines (s : St) : Array String := Id.run do
@@ -62,8 +63,9 @@ def growthLines (s : St) : Array String := Id.run do
       if !growthOk m0.lexedPpm m.lexedPpm then bad := s!"lexed fraction grows from {m0.lexedPpm} ppm at {n0} tokens to {m.lexedPpm} ppm at {n}"
       else if !growthOk m0.bytesPpm m.bytesPpm then bad := s!"requested-bytes fraction grows from {m0.bytesPpm} ppm at {n0} tokens to {m.bytesPpm} ppm at {n}"
       else if !growthOk m0.freshPpm m.freshPpm then bad := s!"fresh-node fraction grows from {m0.freshPpm} ppm at {n0} tokens to {m.freshPpm} ppm at {n}"
+      else if !growthOk m0.freshVisPpm m.freshVisPpm then bad := s!"fresh visible-node fraction grows from {m0.freshVisPpm} ppm at {n0} tokens to {m.freshVisPpm} ppm at {n}"
     let last := ser[ser.size - 1]!
-    out := out.push s!"growth-{key.1}-{key.2} judge={if bad.isEmpty then "ok" else "FAIL " ++ bad} sizes={ser.size} lexed_small={m0.lexedPpm} lexed_big={last.2.lexedPpm} bytes_small={m0.bytesPpm} bytes_big={last.2.bytesPpm} fresh_small={m0.freshPpm} fresh_big={last.2.freshPpm}"
+    out := out.push s!"growth-{key.1}-{key.2} judge={if bad.isEmpty then "ok" else "FAIL " ++ bad} sizes={ser.size} lexed_small={m0.lexedPpm} lexed_big={last.2.lexedPpm} bytes_small={m0.bytesPpm} bytes_big={last.2.bytesPpm} fresh_small={m0.freshPpm} fresh_big={last.2.freshPpm} freshvis_small={m0.freshVisPpm} freshvis_big={last.2.freshVisPpm}"
   return out
 
 def step (s : St) (line : String) : IO St := do
@@ -74,8 +76,8 @@ def step (s : St) (line : String) : IO St := do
   | 3 => if line == "end" then return { s with mode := 0 } else return { s with new := s.new.push line }
   | _ =>
     match line.splitOn " " with
-    | ["thr", lang, size, a, b, c] =>
-      return { s with thr := s.thr.insert (lang, natOf size) { lexed := natOf a, bytes := natOf b, fresh := natOf c } }
+    | ["thr", lang, size, a, b, c, d] =>
+      return { s with thr := s.thr.insert (lang, natOf size) { lexed := natOf a, bytes := natOf b, fresh := natOf c, freshVis := natOf d } }
     | ["case", id] => return { s with id := id, before := #[], edited := #[], new := #[], meas := {} }
     | ["lang", l] => return { s with lang := l }
     | ["size", n] => return { s with size := natOf n }
